@@ -329,6 +329,8 @@ def conformance_stage(kind, variant, params):
                     rep[key] += r.get(key, 0)
                 rep['drift_samples'] += r.get('drift_samples', [])[:3]
                 rep['build'] = r.get('build')
+            if not rep.get('crash') and (rep['skipped'] or not rep['behaviours']):
+                raise ToolError('replay of engine %s on build %s skipped %d behaviours (feature mismatch between model and build)' % (params.get('engine'), variant, rep['skipped']))
             if not rep.get('crash'):
                 with open(trace, 'w') as out:
                     for i in range(k):
